@@ -61,7 +61,10 @@ def pipeline(ctx, cid, x, y, strat, n, kw, append, rule, info):
                 wv.recreate_from_average(n_arg, rfa_class=R.cls(strat), **kw)
             xs0, ys0 = wv.get()
             ys0 = np.array(ys0, dtype=float)
-            wv.integral_match(target_function_integral_method=rule)
+            if (len(x) + n) % 2:
+                wv.integral_match(target_function_integral_method=rule)
+            else:
+                wv.integral_match(rule)                     # first positional parameter, documented order
             xs, res = wv.get()
     except Exception as e:
         ctx.judged()
@@ -140,7 +143,7 @@ def run_random_case(ctx, kind_, idx):
     strat = R.ALL[int(rng.integers(0, 6))]
     n = R.gen_n(rng)
     kw, _a = R.gen_params(rng, strat, n)
-    x, y, meta = R.gen_series(rng, 2, 60, ties_share=0.3)
+    x, y, meta = R.gen_series(rng, 2, 60, ties_share=0.3, long_share=R.LONG_SHARE)
     if rng.integers(0, 10) == 0:
         mixed = gen.mixed_steps_x(rng, len(x))
         if mixed is not None:
